@@ -186,7 +186,7 @@ def specC02 (d : Judged) : Bool × String × String :=
   if d.obs.err.kind == "conflict" && !Ledger.blameOk d.kind d.chain d.obs.err.p d.obs.err.q d.obs.err.subject then
     (false, s!"conflict blames {U d.obs.err.p} and {U d.obs.err.q} for '{U d.obs.err.subject}' which they did not both set",
      s!"C02:blame:{U d.obs.err.subject |>.takeWhile (· != ' ')}")
-  else if Ledger.mustSucceed d.kind d.chain && d.obs.err.kind != "none" then
+  else if (Ledger.absRun d.kind [] d.chain).isSome && d.obs.err.kind != "none" then
     (false, s!"no two plugins set the same item, yet the request failed: {d.obs.err.kind} '{U d.obs.err.subject}' {U d.obs.err.p}/{U d.obs.err.q}",
      s!"C02:false-conflict:{U d.obs.err.subject |>.takeWhile (· != ' ')}")
   else (true, "", "")
